@@ -375,8 +375,8 @@ package avro
 
 //@ ghost omitv(c iface, p ptr) bool reads M
 //@ iface Codec.Omit
-//@   requires this != nil
-//@   ensures res == omitv(this, p)
+//@   requires this != nil && wfc(this) && wfval(this, p)
+//@   ensures [C02,C13] res == omitv(this, p)
 //@   pure
 
 //@ iface Codec.Write
@@ -391,21 +391,21 @@ package avro
 
 //@ spec rdable(p ptr, n int) bool = p != nil && rawalloc(p, n)
 //@ spec wfslice(s bytes) bool = 0 <= len(s) && len(s) < 1<<40 && (len(s) == 0 || allocated(s))
-//@ type IntCodec[T] for T in int16,int32,int64 : typed = true ; dsz = sizeof(T) ; wfc = true ; cend(b, i) = vend(b, i) ; wfval(p) = rdable(p, sizeof(T))
-//@ type floatCodec[T] for T in float32,float64 : typed = true ; dsz = sizeof(T) ; wfc = true ; cend(b, i) = i + sizeof(T) ; wfval(p) = rdable(p, sizeof(T))
-//@ type Float32DoubleCodec : typed = true ; dsz = 4 ; wfc = true ; cend(b, i) = i + 8 ; wfval(p) = rdable(p, 4)
-//@ type BoolCodec : typed = true ; dsz = 1 ; wfc = true ; cend(b, i) = i + 1 ; wfval(p) = rdable(p, 1)
-//@ type *fixedCodec : typed = 0 <= this.Size && this.Size < 1<<40 ; dsz = this.Size ; wfc = this != nil ; cend(b, i) = i + this.Size ; wfval(p) = this.Size == 0 || rdable(p, this.Size)
-//@ type fixedCodec : typed = 0 <= this.Size && this.Size < 1<<40 ; dsz = this.Size ; wfc = true ; cend(b, i) = i + this.Size ; wfval(p) = this.Size == 0 || rdable(p, this.Size)
-//@ type BytesCodec : typed = true ; dsz = 24 ; wfc = true ; cend(b, i) = vend(b, i) + int(vval(b, i)) ; wfval(p) = rdable(p, 24) && wfslice(membytes(p))
-//@ type StringCodec : typed = true ; dsz = 16 ; wfc = true ; cend(b, i) = vend(b, i) + int(vval(b, i)) ; wfval(p) = rdable(p, 16) && wfslice(memstr(p))
-//@ type nullCodec : typed = true ; dsz = 0 ; wfc = true ; cend(b, i) = i ; wfval(p) = true
+//@ type IntCodec[T] for T in int16,int32,int64 : omitv(p) = this.omitEmpty && memint(p, sizeof(T)) == 0 ; typed = true ; dsz = sizeof(T) ; wfc = true ; cend(b, i) = vend(b, i) ; wfval(p) = rdable(p, sizeof(T))
+//@ type floatCodec[T] for T in float32,float64 : omitv(p) = this.omitEmpty && (memuint(p, sizeof(T)) & ((1 << (8 * sizeof(T) - 1)) - 1)) == 0 ; typed = true ; dsz = sizeof(T) ; wfc = true ; cend(b, i) = i + sizeof(T) ; wfval(p) = rdable(p, sizeof(T))
+//@ type Float32DoubleCodec : omitv(p) = this.omitEmpty && (memuint(p, 4) & 2147483647) == 0 ; typed = true ; dsz = 4 ; wfc = true ; cend(b, i) = i + 8 ; wfval(p) = rdable(p, 4)
+//@ type BoolCodec : omitv(p) = this.omitEmpty && mem8(p) == 0 ; typed = true ; dsz = 1 ; wfc = true ; cend(b, i) = i + 1 ; wfval(p) = rdable(p, 1)
+//@ type *fixedCodec : omitv(p) = false ; typed = 0 <= this.Size && this.Size < 1<<40 ; dsz = this.Size ; wfc = this != nil ; cend(b, i) = i + this.Size ; wfval(p) = this.Size == 0 || rdable(p, this.Size)
+//@ type fixedCodec : omitv(p) = false ; typed = 0 <= this.Size && this.Size < 1<<40 ; dsz = this.Size ; wfc = true ; cend(b, i) = i + this.Size ; wfval(p) = this.Size == 0 || rdable(p, this.Size)
+//@ type BytesCodec : omitv(p) = this.omitEmpty && len(membytes(p)) == 0 ; typed = true ; dsz = 24 ; wfc = true ; cend(b, i) = vend(b, i) + int(vval(b, i)) ; wfval(p) = rdable(p, 24) && wfslice(membytes(p))
+//@ type StringCodec : omitv(p) = this.omitEmpty && len(memstr(p)) == 0 ; typed = true ; dsz = 16 ; wfc = true ; cend(b, i) = vend(b, i) + int(vval(b, i)) ; wfval(p) = rdable(p, 16) && wfslice(memstr(p))
+//@ type nullCodec : omitv(p) = true ; typed = true ; dsz = 0 ; wfc = true ; cend(b, i) = i ; wfval(p) = true
 
 // ---------------------------------------------------------------- union.go (Avro: a union is encoded as a long branch index followed by the branch value)
 
-//@ type *unionOneAndNullCodec : typed = typed(this.codec) && 0 <= dsz(this.codec) ; dsz = dsz(this.codec) ; wfc = this != nil && this.codec != nil && wfc(this.codec) && this.nonNull <= 1 ; \
+//@ type *unionOneAndNullCodec : omitv(p) = false ; typed = typed(this.codec) && 0 <= dsz(this.codec) ; dsz = dsz(this.codec) ; wfc = this != nil && this.codec != nil && wfc(this.codec) && this.nonNull <= 1 ; \
 //@      cend(b, i) = (b[i] >> 1) == this.nonNull ? cend(this.codec, b, i+1) : i+1 ; wfval(p) = wfval(this.codec, p)
-//@ type *unionNullString : typed = true ; dsz = 16 ; wfc = this != nil && this.nonNull <= 1 ; \
+//@ type *unionNullString : omitv(p) = false ; typed = true ; dsz = 16 ; wfc = this != nil && this.nonNull <= 1 ; \
 //@      cend(b, i) = (b[i] >> 1) == this.nonNull ? vend(b, i+1) + int(vval(b, i+1)) : i+1 ; wfval(p) = rdable(p, 16) && wfslice(memstr(p))
 
 //@ func (*unionOneAndNullCodec).Read
@@ -461,8 +461,9 @@ package avro
 //@   modifies w.buf, BH[w.buf]
 
 //@ func (StringCodec).Omit
-//@   ensures res == (sc.omitEmpty && len(memstr(p)) == 0)
-//@   requires p != nil
+//@   implements Codec.Omit
+//@   ensures [C02,C13] res == (sc.omitEmpty && len(memstr(p)) == 0)
+//@   requires rdable(p, 16)
 //@   pure
 
 // ---------------------------------------------------------------- allocation
@@ -477,7 +478,7 @@ package avro
 
 // ---------------------------------------------------------------- pointer.go
 
-//@ type *PointerCodec : typed = typed(this.Codec) ; dsz = 8 ; wfc = this != nil && this.Codec != nil && wfc(this.Codec) && 0 <= dsz(this.Codec) ; \
+//@ type *PointerCodec : omitv(p) = mem64(p) == 0 ; typed = typed(this.Codec) ; dsz = 8 ; wfc = this != nil && this.Codec != nil && wfc(this.Codec) && 0 <= dsz(this.Codec) ; \
 //@      cend(b, i) = cend(this.Codec, b, i) ; wfval(p) = rdable(p, 8) && (mem64(p) == 0 || wfval(this.Codec, ptr(mem64(p))))
 
 //@ func (*PointerCodec).Read
@@ -503,7 +504,7 @@ package avro
 
 //@ func (*PointerCodec).Omit
 //@   implements Codec.Omit
-//@   requires p != nil
+//@   requires c != nil && rdable(p, 8)
 //@   ensures [C13,C02] res == (mem64(p) == 0)
 //@   pure
 
@@ -525,7 +526,7 @@ package avro
 //@      && (rc.fields[k].offset != MaxUint64 ==> typed(rc.fields[k].codec) && rc.fields[k].offset < 1<<40 && int(rc.fields[k].offset) + dsz(rc.fields[k].codec) <= recsz(rc) && dsz(rc.fields[k].codec) > 0)
 //@ spec present(rc ptr, k int) bool = rc.fields[k].offset != MaxUint64
 //@ spec disjointFields(rc ptr, j int, k int) bool = int(rc.fields[j].offset) + dsz(rc.fields[j].codec) <= int(rc.fields[k].offset) || int(rc.fields[k].offset) + dsz(rc.fields[k].codec) <= int(rc.fields[j].offset)
-//@ type *recordCodec : typed = true ; dsz = recsz(this) ; wfc = this != nil && 0 <= recsz(this) && recsz(this) < 1<<40 && (forall k int :: 0 <= k && k < len(this.fields) ==> fieldOK(this, k)) \
+//@ type *recordCodec : omitv(p) = false ; typed = true ; dsz = recsz(this) ; wfc = this != nil && 0 <= recsz(this) && recsz(this) < 1<<40 && (forall k int :: 0 <= k && k < len(this.fields) ==> fieldOK(this, k)) \
 //@        && (forall j int, k int :: 0 <= j && j < k && k < len(this.fields) && present(this, j) && present(this, k) ==> disjointFields(this, j, k)) ; \
 //@      cend(b, i) = rend(this, b, i, len(this.fields)) ; \
 //@      wfval(p) = p != nil && (forall k int :: 0 <= k && k < len(this.fields) ==> this.fields[k].offset != MaxUint64 && wfval(this.fields[k].codec, uintptr(p) + this.fields[k].offset))
@@ -830,7 +831,7 @@ package avro
 // decoded extent (C04) is therefore stated for such inputs.  Used only by (*arrayCodec).Skip and (*MapCodec).Skip.
 //@ axiom block_size_exact(c ptr, b bytes, i int): vval(b, i) < 0 ==> items(c, b, vend(b, vend(b, i)), -vval(b, i)) == vend(b, vend(b, i)) + int(vval(b, vend(b, i)))
 
-//@ type *arrayCodec : dsz = 24 ; wfc = this != nil && this.itemCodec != nil && wfc(this.itemCodec) ; \
+//@ type *arrayCodec : omitv(p) = this.omitEmpty && hL(p) == 0 ; dsz = 24 ; wfc = this != nil && this.itemCodec != nil && wfc(this.itemCodec) ; \
 //@      typed = this.itemType != nil && data(this.itemType) != nil && 0 <= dsz(this.itemCodec) && dsz(this.itemCodec) <= isz(this) && isz(this) < 1<<22 && typed(this.itemCodec) ; \
 //@      cend(b, i) = blk(this, b, i) ; wfval(p) = rdable(p, 24) && 0 <= memint(uintptr(p)+8, 8) && memint(uintptr(p)+8, 8) < 1<<40 \
 //@        && (forall k int :: 0 <= k && k < memint(uintptr(p)+8, 8) ==> wfval(this.itemCodec, mem64(p) + uint64(k * isz(this))))
@@ -1033,7 +1034,7 @@ package avro
 //@ func (*arrayCodec).Omit
 //@   implements Codec.Omit
 //@   requires rc != nil && rdable(p, 24)
-//@   ensures res == (rc.omitEmpty && hL(p) == 0)
+//@   ensures [C02,C13] res == (rc.omitEmpty && hL(p) == 0)
 //@   pure
 
 // ================================================================ map.go
@@ -1205,7 +1206,7 @@ package avro
 
 //@ func (*MapCodec).Read
 //@   implements Codec.Read
-//@   props C06
+//@   props C06, C05, C03
 //@   let i0 := r.i, b0 := r.buf, sd0 := r.rb.sData, rb0 := r.rb
 //@   requires wfRBS(r) && wfc(asiface(m)) && typed(asiface(m)) && p != nil && rawalloc(p, 8) && zeroed(p, 8)
 //@   ensures [C04] err == nil ==> r.i == mblk(m, b0, i0)
@@ -1224,7 +1225,7 @@ package avro
 
 // ---------------------------------------------------------------- union.go: general unions (decode/skip only; Write is unimplemented)
 //@ ghost udsz(c ptr) int
-//@ type *unionCodec : dsz = udsz(this) ; wfc = this != nil && (forall k int :: 0 <= k && k < len(this.codecs) ==> this.codecs[k] != nil && wfc(this.codecs[k])) ; \
+//@ type *unionCodec : omitv(p) = false ; dsz = udsz(this) ; wfc = this != nil && (forall k int :: 0 <= k && k < len(this.codecs) ==> this.codecs[k] != nil && wfc(this.codecs[k])) ; \
 //@      typed = 0 <= udsz(this) && (forall k int :: 0 <= k && k < len(this.codecs) ==> typed(this.codecs[k]) && 0 <= dsz(this.codecs[k]) && dsz(this.codecs[k]) <= udsz(this)) ; \
 //@      cend(b, i) = (0 <= vval(b, i) && vval(b, i) < int64(len(this.codecs))) ? cend(this.codecs[int(vval(b, i))], b, vend(b, i)) : vend(b, i) ; wfval(p) = true
 
@@ -1245,3 +1246,64 @@ package avro
 //@   ensures [C04,C06] (vval(b0, i0) < 0 || vval(b0, i0) >= int64(len(u.codecs))) ==> err != nil
 //@   ensures [C04] err == nil ==> r.i == cend(asiface(u), b0, i0)
 //@   modifies r.i
+
+// ---------------------------------------------------------------- Omit: which values are written as the null branch (C02, C13)
+//@ func (IntCodec[T]).Omit for T in int16,int32,int64
+//@   implements Codec.Omit
+//@   requires rdable(p, sizeof(T))
+//@   ensures [C02,C13] res == (rc.omitEmpty && memint(p, sizeof(T)) == 0)
+//@   pure
+
+//@ func (floatCodec[T]).Omit for T in float32,float64
+//@   implements Codec.Omit
+//@   requires rdable(p, sizeof(T))
+//@   ensures [C02,C13] res == (rc.omitEmpty && (memuint(p, sizeof(T)) & ((1 << (8 * sizeof(T) - 1)) - 1)) == 0)
+//@   pure
+
+//@ func (Float32DoubleCodec).Omit
+//@   implements Codec.Omit
+//@   requires rdable(p, 4)
+//@   ensures [C02,C13] res == (rc.omitEmpty && (memuint(p, 4) & 2147483647) == 0)
+//@   pure
+
+//@ func (BoolCodec).Omit
+//@   implements Codec.Omit
+//@   requires rdable(p, 1)
+//@   ensures [C02,C13] res == (rc.omitEmpty && mem8(p) == 0)
+//@   pure
+
+//@ func (BytesCodec).Omit
+//@   implements Codec.Omit
+//@   requires rdable(p, 24)
+//@   ensures [C02,C13] res == (rc.omitEmpty && len(membytes(p)) == 0)
+//@   pure
+
+//@ func (fixedCodec).Omit
+//@   implements Codec.Omit
+//@   ensures [C02,C13] !res
+//@   pure
+
+//@ func (nullCodec).Omit
+//@   implements Codec.Omit
+//@   ensures [C02,C13] res
+//@   pure
+
+//@ func (*recordCodec).Omit
+//@   implements Codec.Omit
+//@   ensures [C02,C13] !res
+//@   pure
+
+//@ func (*unionOneAndNullCodec).Omit
+//@   implements Codec.Omit
+//@   ensures [C02,C13] !res
+//@   pure
+
+//@ func (*unionNullString).Omit
+//@   implements Codec.Omit
+//@   ensures [C02,C13] !res
+//@   pure
+
+//@ func (*unionCodec).Omit
+//@   implements Codec.Omit
+//@   ensures [C02,C13] !res
+//@   pure
